@@ -10,6 +10,7 @@ pub mod c02bp;
 pub mod c02h3;
 pub mod c02sess;
 pub mod c02socks;
+pub mod c02tick;
 pub mod c03;
 pub mod c03conn;
 pub mod c04;
